@@ -444,6 +444,28 @@ pub fn random(corpus_dir: &str, scratch: &str, count: usize, c16: bool, trace: &
     // directed: every ordered pair of witness contents as siblings (flat, and the second one level down), with all
     // patterns of the category co-selected in both orders -- a verdict must not depend on the sibling, on its
     // position in the listing or on the co-selected patterns (C15 iii; also an instance of the union, C03)
+    // "at every directory depth": an eligible file twelve directories down, one on the way, one at the top
+    for cat in cats {
+        let (pats, ids, res) = &usable[cat];
+        if !ids.iter().any(|i| i == "c1") || !ids.iter().any(|i| i == "c2") {
+            continue;
+        }
+        let mut inner = vec![Node::File { name: "Bottom.sol".to_string(), content_id: "c1".to_string(), bytes: vec![] }];
+        for level in (1..=12).rev() {
+            let mut here = vec![Node::Dir { name: format!("d{}", level), entries: inner }];
+            if level == 6 {
+                here.push(Node::File { name: "Midway.sol".to_string(), content_id: "c2".to_string(), bytes: vec![] });
+            }
+            inner = here;
+        }
+        let mut entries = inner;
+        entries.push(Node::File { name: "Top.sol".to_string(), content_id: "c1".to_string(), bytes: vec![] });
+        fill_bytes(&mut entries, &texts);
+        let sel = pats.clone();
+        let mut used = serde_json::Map::new();
+        collect_ids(&entries, res, &sel, &mut used);
+        runner.run(cat, &sel, &entries, &Value::Object(used), c16, "deep", trace, out);
+    }
     let mut pair_no = 0usize;
     for cat in cats {
         let (pats, ids, res) = &usable[cat];
